@@ -31,7 +31,8 @@ def ev(e, v):
     if k == 'F':
         return bool(v[e[1]])
     if k == 'T':
-        return {'>=': v[e[1]] >= e[3], '==': v[e[1]] == e[3]}[e[2]]
+        from ..dsl import CMP, val
+        return bool(CMP[e[2]](v[e[1]], val(e[3])))
     if k == 'TT':
         return v[e[1]] >= v[e[3]]
     if k == 'R':
@@ -169,6 +170,11 @@ ACTIONS = {
     'X+': [['TADD', 'X', 1]], 'X-': [['TADD', 'X', -1]], 'Y+': [['TADD', 'Y', 1]], 'Y-': [['TADD', 'Y', -1]],
     'T!': [['CANCEL', 't', 'c']],
     'R+': [['INC', 'r', {'a': 1}]], 'R-': [['TRY', [['DEC', 'r', {'a': 1}]]]],
+    # the flag raised / lowered through its inverse
+    'nA+': [['NSET', 'A', False]], 'nA-': [['NSET', 'A', True]],
+    # a tracked value that holds objects with a .value attribute of their own
+    'XB': [['TSET', 'X', {'$': 'enum', 'n': 'BUSY'}]], 'XI': [['TSET', 'X', {'$': 'enum', 'n': 'IDLE'}]],
+    'Xb': [['TSET', 'X', {'$': 'box', 'l': 'b', 'v': 0}]], 'Xa': [['TSET', 'X', {'$': 'box', 'l': 'a', 'v': 0}]],
 }
 REVERT = {'A+': 'A-', 'B+': 'B-', 'X+': 'X-', 'Y-': 'Y+', 'A-': 'A+', 'X-': 'X+', 'R+': 'R-'}
 
@@ -183,7 +189,14 @@ def helper(steps):
     return s
 
 
-def dyn_program(tree, hist, second, init, nwait, task_last=False):
+def dyn_program(tree, hist, second, init, nwait, task_last=False, start=0):
+    prog = _dyn_program(tree, hist, second, init, nwait, task_last)
+    if start:
+        prog['start'] = start
+    return prog
+
+
+def _dyn_program(tree, hist, second, init, nwait, task_last=False):
     objs = {'A': 'Flag', 'B': 'Flag', 'X': ['Tracked', init[0]], 'Y': ['Tracked', init[1]], 'r': ['Resources', {'a': 0}]}
     kids = [['DO', 't', [['D', 5]]]]
     if task_last:
@@ -238,7 +251,8 @@ def subst(tree):
 
 
 def touches(action):
-    return {'A+': 'A', 'A-': 'A', 'B+': 'B', 'B-': 'B', 'X+': 'X', 'X-': 'X', 'Y+': 'Y', 'Y-': 'Y', 'T!': 't', 'R+': 'r', 'R-': 'r'}[action]
+    return {'A+': 'A', 'A-': 'A', 'B+': 'B', 'B-': 'B', 'X+': 'X', 'X-': 'X', 'Y+': 'Y', 'Y-': 'Y', 'T!': 't', 'R+': 'r', 'R-': 'r',
+            'nA+': 'A', 'nA-': 'A', 'XB': 'X', 'XI': 'X', 'Xa': 'X', 'Xb': 'X'}[action]
 
 
 def BOUNDS(tier):
@@ -322,6 +336,47 @@ def cases(tier):
                     if op[0] == 'DO' and op[1] == 'w1':
                         op[2].insert(0, ['D', pre])
                 out.append({'kind': 'dyn', 'prog': prog})
+    # a clock that starts below zero: the date 0 (falsy) lies in the future; time atoms on it alone and inside connectives
+    for start in (-2, -1):
+        z = -start            # (dates are written relative to the start time: this one is the absolute date 0)
+        for tree in ([['GE', z], ['EQ', z], ['LT', z], ['NOT', ['GE', z]], ['NOT', ['LT', z]]]
+                     + [[op, ta, fb] if left else [op, fb, ta] for op in ('AND', 'OR') for ta in (['GE', z], ['EQ', z], ['LT', z], ['GE', z + 1])
+                        for fb in (['F', 'A'], ['T', 'X', '>=', 1]) for left in (True, False)]
+                     + [['AND', ['OR', ['GE', z], ['F', 'B']], ['F', 'A']], ['OR', ['AND', ['EQ', z], ['F', 'A']], ['F', 'B']]]):
+            at = atoms_of(tree)
+            for h in ([], [(0, 'A+')], [(z, 'A+')], [(z + 1, 'A+')], [(1, 'X+')], [(z, 'X+')], [(z + 1, 'X+'), (z + 1, 'A+')], [(0, 'A+'), (z, 'A-')],
+                      [(z + 1, 'B+')]):
+                if h and not all(touches(a) in at for _, a in h):
+                    continue
+                for nw in (1, 2):
+                    out.append({'kind': 'dyn', 'prog': dyn_program(tree, h, None, (0, 0), nw, start=start)})
+    # the flag raised and lowered through its inverse, (~flag).set(...), while waiters are parked on the flag / its inverse / trees
+    a_trees = [t for t in trees(False) if 'A' in atoms_of(t)] + [['AND', ['OR', ['F', 'A'], ['F', 'B']], ['T', 'X', '==', 0]],
+                                                                ['OR', ['AND', ['NOT', ['F', 'A']], ['F', 'B']], ['T', 'X', '>=', 1]]]
+    for tree in a_trees:
+        for h in ([(0, 'nA+')], [(1, 'nA+')], [(1, 'nA+'), (1, 'nA-')], [(1, 'nA+'), (2, 'nA-')], [(0, 'A+'), (1, 'nA-')], [(0, 'nA-'), (1, 'nA+')],
+                  [(0, 'nA+'), (1, 'A-')], [(1, 'nA+'), (2, 'B+')], [(1, 'B+'), (2, 'nA+')]):
+            for nw in (1, 2):
+                out.append({'kind': 'dyn', 'prog': dyn_program(tree, h, None, (0, 0), nw)})
+            if len(h) == 1:
+                out.append({'kind': 'dyn', 'prog': dyn_program(tree, h, [(h[0][0], 'nA-')], (0, 0), 1)})
+                out.append({'kind': 'dyn', 'prog': dyn_program(tree, h, [(h[0][0], 'A-')], (0, 0), 1)})
+    # tracked values and right operands that have a .value attribute of their own (enum members; objects whose .value is
+    # equal although they are not), compared with == / != against such constants and against the number in their .value
+    IDLE, BUSY = {'$': 'enum', 'n': 'IDLE'}, {'$': 'enum', 'n': 'BUSY'}
+    BA, BB = {'$': 'box', 'l': 'a', 'v': 0}, {'$': 'box', 'l': 'b', 'v': 0}
+    for init0, consts, acts in ((IDLE, (IDLE, BUSY, 1, 2), ('XB', 'XI')), (BA, (BA, BB, 0), ('Xb', 'Xa'))):
+        oatoms = [['T', 'X', op, c] for op in ('==', '!=') for c in consts]
+        otrees = (oatoms + [['NOT', a] for a in oatoms] + [[op, a, ['F', 'A']] for op in ('AND', 'OR') for a in oatoms]
+                  + [['AND', ['F', 'A'], ['OR', a, ['F', 'B']]] for a in oatoms])
+        for tree in otrees:
+            at = atoms_of(tree)
+            for h in ([], [(1, acts[0])], [(1, acts[0]), (2, acts[1])], [(1, acts[0]), (1, acts[1])], [(0, 'A+'), (1, acts[0])],
+                      [(1, acts[0]), (2, 'A+')], [(0, acts[0]), (1, acts[1]), (2, acts[0])]):
+                if h and not all(touches(a) in at for _, a in h):
+                    continue
+                for nw in (1, 2):
+                    out.append({'kind': 'dyn', 'prog': dyn_program(tree, h, None, (init0, 0), nw)})
     # a setter that is cancelled at each of its activation boundaries: the change it made must still wake the waiters
     simple = [t for t in trees(False) if len(atoms_of(t) & {'X', 'Y', 'r', 'A'}) >= 1][:60]
     for tree in simple:
@@ -346,7 +401,7 @@ def judge_dyn(program, faults=()):
     for idx, (kind, act, pc, now, data) in enumerate(log):
         if kind == 'wait-done':
             v = dict(data)
-            v['start'] = 0
+            v['start'] = program.get('start', 0)
             v.setdefault('done:t', False)
             v.setdefault('done:t2', False)
             if not ev(tree, v):
@@ -371,7 +426,7 @@ def judge_dyn(program, faults=()):
             elif kind in ('end', 'exc') and (act, pc) in waiting:
                 del waiting[(act, pc)]
         v = dict(snap)
-        v['start'] = 0
+        v['start'] = program.get('start', 0)
         v.setdefault('done:t', False)
         v.setdefault('done:t2', False)
         if waiting and ev(tree, v):
